@@ -57,7 +57,10 @@ def must_may(intervals, axis):
     return must, may
 
 
-def pair_axis(axis):
+def pair_axis(axis, twin=False):
+    if twin:  # same length, same first and last point, other points in between
+        a = list(axis)
+        return [a[0]] + [0.5 * (a[i] + a[i + 1]) for i in range(1, len(a) - 1)] + [a[-1]] if len(a) >= 3 else a
     return list(axis[1:-1]) if len(axis) >= 3 else list(axis[:1])
 
 
@@ -71,8 +74,9 @@ def build_spec(case, kind_variant=None):
     if case.get("pair"):
         # an unlinked group of two datasets: d0 is declared first, lives on a narrower axis sharing its points with
         # d1's, and (unless a penalty needs s1) lacks the clp the item targets; d1 is the observed dataset
-        mc0 = ["m1"] if case["kind"].startswith("penalty") else ["m2"]
-        ds.insert(0, S.dataset("d0", pair_axis(axis), n_model=5, megacomplexes=mc0))
+        twin = case["pair"] == "twin"
+        mc0 = ["m1"] if case["kind"].startswith(("penalty", "weight")) or twin else ["m2"]
+        ds.insert(0, S.dataset("d0", pair_axis(axis, twin), n_model=5, megacomplexes=mc0))
     spec = S.base_spec(ds, mcs, seed=case.get("seed", 0))
     spec["groups"]["default"]["link_clp"] = linked
     return spec
@@ -128,7 +132,17 @@ def observe(case):
                 vs.append(V("only-is-not-the-complement-of-zero", zero=sorted(zero_set), only_zeroed=sorted(only_zeroed)))
             # number_of_clps must count exactly the remaining coefficients
             n_labels = 2 + (1 if case["linked"] else 0)
-            want = n_labels * len(axis) - len(zero_set) + (2 * len(pair_axis(axis)) if case.get("pair") else 0)
+            want = n_labels * len(axis) - len(zero_set)
+            if case.get("pair"):
+                axis0 = pair_axis(axis, case["pair"] == "twin")
+                want += 2 * len(axis0)
+                if case["pair"] == "twin":  # d0 carries s1 as well: its zeroed points obey the same set semantics on its own axis
+                    c0 = res.data["d0"]["clp"].sel(clp_label="s1").values
+                    zero0 = {i for i in range(len(axis0)) if c0[i] == 0.0}
+                    must0, may0 = must_may(case["intervals"], axis0)
+                    if not (must0 <= zero0 <= may0):
+                        vs.append(V("first-dataset-of-the-pair-zeroed-at-the-wrong-points", zeroed=sorted(zero0), must=sorted(must0), may=sorted(may0)))
+                    want -= len(zero0)
             if res.number_of_clps != want:
                 vs.append(V("number-of-clps-inconsistent-with-zeroed-clps", got=int(res.number_of_clps), want=want))
         return zero_set, vs
@@ -140,10 +154,11 @@ def observe(case):
         s1, s2 = c.sel(clp_label="s1").values, c.sel(clp_label="s2").values
         return {i for i in range(len(axis)) if s2[i] == p * s1[i]}, vs
     if kind in ("weight_global", "weight_model"):
+        wds = ["d0", "d1"] if case.get("pair") else ["d1"]
         if kind == "weight_global":
-            spec["weights"] = [{"datasets": ["d1"], "global_interval": iv, "value": 0.25}]
+            spec["weights"] = [{"datasets": wds, "global_interval": iv, "value": 0.25}]
         else:
-            spec["weights"] = [{"datasets": ["d1"], "model_interval": iv, "value": 0.25}]
+            spec["weights"] = [{"datasets": wds, "model_interval": iv, "value": 0.25}]
         if iv is not None and (isinstance(iv[0], list)):
             # weights take a single interval: a list is expressed as several weight items (their product)
             key = "global_interval" if kind == "weight_global" else "model_interval"
@@ -202,7 +217,7 @@ def observe(case):
                     out.append((A, val))
             return out
 
-        per_dataset = [admissible_values("d0", pair_axis(axis))] if case.get("pair") else []
+        per_dataset = [admissible_values("d0", pair_axis(axis, case.get("pair") == "twin"))] if case.get("pair") else []
         per_dataset.append(admissible_values("d1", axis))
         matches = []
         for combo in itertools.product(*per_dataset):
@@ -393,6 +408,14 @@ def run(run: core.Run):
                 B = B[::2] if kind.startswith("penalty") else B
             for lo, hi in itertools.product(B, B):
                 pair_cases.append({"axis": ax, "kind": kind, "linked": False, "pair": True, "intervals": [[enc(lo), enc(hi)]], "seed": run.seed})
+    # ... and a pair whose first dataset lives on a *twin* axis (same length and end points, other interior points)
+    for ax in ["uniform5", "nonuniform5"]:
+        for kind in ("zero_only", "relation", "penalty_source", "penalty_target", "weight_global"):
+            B = bound_alphabet(AXES[ax])
+            if quick:
+                B = B[::2] if kind.startswith("penalty") else B
+            for lo, hi in itertools.product(B, B):
+                pair_cases.append({"axis": ax, "kind": kind, "linked": False, "pair": "twin", "intervals": [[enc(lo), enc(hi)]], "seed": run.seed})
     run.map("interval", cases)
     monotonicity(run, "interval")
     run.map("interval", pair_cases, part="interval-unlinked-pair")
